@@ -136,7 +136,7 @@ func (c *Ctx) constGlobal(g *ssa.Global) (ConstArr, bool) {
 			t = ratLit(constRat(tv.Value))
 		}
 		elems = append(elems, t)
-		term = sto(term, intLit(int64(i)), t)
+		term = c.sto(term, intLit(int64(i)), t)
 	}
 	c.note("package-level array " + g.Pkg.Pkg.Name() + "." + g.Name() + " is read as its initialiser: no function of the module stores to it (checked syntactically, C14.no-global-write)")
 	return ConstArr{elems, term, g.Name()}, true
